@@ -542,7 +542,7 @@ Definition psize (p : list instr) : nat := fold_right (fun i a => (isize i + a)%
 Definition fsize (fr : frame) : nat := match fr with FExec _ p => S (psize p) | _ => 1%nat end.
 Definition weight (s : st) : nat :=
   (fold_right (fun fr a => fsize fr + a) O (stack s)
-   + fold_right (fun v a => S (psize (v_cont (vmof s v))) + a) O (vpool s))%nat.
+   + fold_right (fun v a => S (psize (v_cont (vmof s v))) + a) O (tpool s))%nat.
 Definition sfuel (s : st) : nat := (16 + 8 * weight s)%nat.
 
 (* ---- host operations and observations ------------------------------------------------------ *)
